@@ -540,15 +540,19 @@ class ResourceScenario(ScenarioData):
         # Working hours are defined in local time, but slots are in UTC
         resource_tz = self.property.get("timezone", self.scenarioIdx)
 
-        # Check if resource has a shift reference. A shift that is merely inherited from an
-        # enclosing group does not override working hours the resource declares itself.
+        # Check if resource has a shift reference. Working time declared nearer to the resource
+        # wins: a shift inherited from an enclosing group does not override working hours the
+        # resource declares itself, nor hours declared by a group in between.
         shift = self.property.get("shifts", self.scenarioIdx)
-        if (
-            shift
-            and self.property.inherited("shifts", self.scenarioIdx)
-            and self.property.provided("workinghours", self.scenarioIdx)
-        ):
-            shift = None
+        if shift and self.property.inherited("shifts", self.scenarioIdx):
+            node: Any = self.property
+            while node is not None:
+                if node.provided("shifts", self.scenarioIdx):
+                    break
+                if node.provided("workinghours", self.scenarioIdx):
+                    shift = None
+                    break
+                node = node.parent
         if shift:
             # Leaves declared inside the shift: nobody who works that shift is there
             for leave in shift.get("leaves", self.scenarioIdx) or []:
